@@ -477,6 +477,19 @@ def fork_cond(ex, st, cond, keep=()):
     return []
 
 
+def _pure_scalar_closure(ex, clo):
+    """closure whose body is straight-line arithmetic/comparison (no calls, no branches, no drops): safe to evaluate without forking"""
+    c = clo
+    while isinstance(c, Ref):
+        c = c.cell.val
+    if not (isinstance(c, Obj) and c.kind == 'closure'):
+        return False
+    fn = ex.prog.closures.get(c.data.get('loc'))
+    if fn is None:
+        return False
+    return all(t[0] in ('return', 'goto') for _s, t in fn.blocks.values())
+
+
 @rule(r'^(std::result::)?Result::map$', r'^(std::result::)?Result::and_then$', r'^(std::result::)?Result::inspect$',
       r'^Option::map$', r'^Option::and_then$', r'^Option::inspect$', r'^Option::is_some_and$', r'^Option::filter$',
       r'^(std::result::)?Result::is_ok_and$', r'^Option::is_none_or$')
@@ -486,6 +499,21 @@ def s_ok_comb(ex, st, call):
     is_opt = base_name(r.ty) == 'Option' or call.c0.startswith('Option')
     okd, okvar = (1, 'Some') if is_opt else (0, 'Ok')
     out = []
+    if is_opt and kind in ('map', 'is_some_and', 'is_none_or') and isinstance(r, EnumV) and not isinstance(r.disc, int) \
+            and 'Some' in r.payloads and z3.is_expr(r.payloads['Some'].fields[0].val) and _pure_scalar_closure(ex, clo):
+        # no fork: the closure is a pure scalar function, so Option<T> stays one symbolic value
+        n_ev = len(st.events); n_pc = len(st.pc)
+        res = list(ex.call_closure(st, clo, [r.payloads['Some'].fields[0].val]))
+        if len(res) == 1 and res[0][0] is st and st.status == 'running' and len(st.events) == n_ev and len(st.pc) == n_pc and z3.is_expr(res[0][1]):
+            v = res[0][1]
+            if kind == 'map':
+                n = EnumV(call.dst_ty, r.disc, 'mapped')
+                o = Obj('Some', 'Some', 'variant'); o.fields[0] = Cell(v); n.payloads['Some'] = o
+                return n
+            if kind == 'is_some_and':
+                return z3.And(_disc_is(r, 1), v)
+            return z3.Or(_disc_is(r, 0), v)
+        return res if False else _ok_comb_fork_after_speculation(ex, st, call, res, r, kind)
     for s2, ok, (r2, clo2) in fork_cond(ex, st, _disc_is(r, okd), [r, clo]):
         if not ok:
             if kind in ('is_some_and', 'is_ok_and'):
@@ -526,6 +554,11 @@ def s_ok_comb(ex, st, call):
             else:
                 out.append((s3, r2))
     return out
+
+
+def _ok_comb_fork_after_speculation(ex, st, call, res, r, kind):
+    # the speculative evaluation had effects after all (cannot happen for closures accepted by _pure_scalar_closure)
+    raise RuntimeError('pure closure evaluation had effects: ' + call.c0)
 
 
 @rule(r'^(std::result::)?Result::(expect|unwrap)$', r'^Option::(expect|unwrap)$')
@@ -597,6 +630,12 @@ def s_unwrap_or(ex, st, call):
     okd, okvar = (1, 'Some') if is_opt else (0, 'Ok')
     out = []
     keep = [r] + list(call.args[1:])
+    if is_opt and kind in ('unwrap_or_default', 'unwrap_or') and isinstance(r, EnumV) and not isinstance(r.disc, int) and 'Some' in r.payloads \
+            and z3.is_bv(r.payloads['Some'].fields[0].val):
+        pv = r.payloads['Some'].fields[0].val
+        alt = call.args[1] if kind == 'unwrap_or' else z3.BitVecVal(0, pv.size())
+        if z3.is_bv(alt) and alt.size() == pv.size():
+            return z3.If(_disc_is(r, 1), pv, alt)
     for s2, ok, kept in fork_cond(ex, st, _disc_is(r, okd), keep):
         if ok:
             out.append((s2, _payload(ex, s2, kept[0], okvar, call.dst_ty)))
@@ -1470,7 +1509,8 @@ def _map_entries(m):
 def map_lookup(ex, st, m, key, val_ty, create_symbolic=True):
     """returns (present: z3 Bool, cell)"""
     ents = _map_entries(m)
-    k = canon_id(key)
+    kc = getattr(ex, 'key_canon', None)
+    k = (kc(st, key) if kc else None) or canon_id(key)
     e = ents.get(k)
     if e is None:
         if m.data.get('known_empty') or not create_symbolic:
@@ -1552,6 +1592,69 @@ def s_entry_or_insert(ex, st, call):
                 s3.emit(Ev('MAP_INSERT', obj=en3.data['map'], args={'key': deref(en3.data['key']), 'val': v}, site=call.site))
                 out.append((s3, Ref(e3[1])))
     return out
+
+
+@rule(r'^(std::collections::hash_map::|std::collections::btree_map::)?Entry::and_modify$')
+def s_entry_and_modify(ex, st, call):
+    en = deref(call.args[0])
+    if not isinstance(en, Obj) or 'entry' not in en.data:
+        return NotImplemented
+    out = []
+    for s2, present, kept in fork_cond(ex, st, en.data['entry'][0], [en, call.args[1]]):
+        en2 = kept[0]
+        if not present:
+            out.append((s2, en2)); continue
+        holder = Obj('', 'h'); holder.fields[0] = Cell(en2)
+        s2.globals['__am'] = holder
+        for s3, _v in ex.call_closure(s2, kept[1], [Ref(en2.data['entry'][1])]):
+            h3 = s3.globals.pop('__am', None)
+            out.append((s3, h3.fields[0].val if (h3 is not None and s3.status == 'running') else None))
+    return out
+
+
+@rule(r'^(std::collections::)?HashMap::(values|into_values|keys)$', prio=-1)
+def s_map_values(ex, st, call):
+    m = deref(call.args[0])
+    if not isinstance(m, Obj) or 'entries' not in m.data or not m.data.get('known_empty'):
+        return NotImplemented
+    kind = call.c0.rsplit('::', 1)[-1]
+    cells = []
+    for e in m.data['entries'].values():
+        pres = z3.simplify(e[0]) if z3.is_expr(e[0]) else z3.BoolVal(bool(e[0]))
+        if z3.is_false(pres):
+            continue
+        if not z3.is_true(pres):
+            return NotImplemented
+        cells.append(Cell(e[2]) if kind == 'keys' else e[1])
+    return mk_iter(ex, st, call.dst_ty, mk_seq('', cells, m.name + '.' + kind), kind != 'into_values')
+
+
+@rule(r'^<.* as Iterator>::collect$', prio=-1)
+def s_collect_known(ex, st, call):
+    it = deref(call.args[0])
+    if not _known_iter(it) or not base_name(call.dst_ty) == 'Vec':
+        return NotImplemented
+    holder = Obj('', 'h'); holder.fields[0] = Cell(mk_seq(call.dst_ty, [], 'collected'))
+    cur = [(st, it, holder.fields[0].val)]
+    done = []
+    guard = 0
+    while cur:
+        guard += 1
+        if guard > 64:
+            return NotImplemented
+        s2, it2, acc = cur.pop()
+        h = Obj('', 'h'); h.fields[0] = Cell(acc)
+        s2.globals['__coll'] = h
+        for s3, it3, v in _iter_step(ex, s2, it2):
+            h3 = s3.globals.get('__coll')
+            acc3 = h3.fields[0].val
+            if s3.status != 'running':
+                s3.globals.pop('__coll', None); done.append((s3, None)); continue
+            if v is None:
+                s3.globals.pop('__coll', None); done.append((s3, acc3)); continue
+            acc3.data['items'].append(Cell(v))
+            cur.append((s3, it3, acc3))
+    return done
 
 
 @rule(r'^(std::collections::)?(HashMap|BTreeMap)::(is_empty|len)$')
@@ -2033,6 +2136,18 @@ def s_bound_map(ex, st, call):
                     out.append((s4, e))
         states = nxt
     return out
+
+
+@rule(r'^<Option<(u64|u32|u16|u8|usize|bool)> as PartialEq>::(eq|ne)$')
+def s_option_scalar_eq(ex, st, call):
+    a = _as_enum(ex, st, deref(call.args[0])); b = _as_enum(ex, st, deref(call.args[1]))
+    if not isinstance(a, EnumV) or not isinstance(b, EnumV):
+        return NotImplemented
+    pa = _payload(ex, st, a, 'Some'); pb = _payload(ex, st, b, 'Some')
+    if not (z3.is_expr(pa) and z3.is_expr(pb)):
+        return NotImplemented
+    eq = z3.Or(z3.And(_disc_is(a, 0), _disc_is(b, 0)), z3.And(_disc_is(a, 1), _disc_is(b, 1), pa == pb))
+    return eq if call.c0.endswith('::eq') else z3.Not(eq)
 
 
 @rule(r'^<Bound<.*> as PartialEq>::(eq|ne)$')
